@@ -138,7 +138,7 @@ def sim_cases(draw, n_markets=(1, 3), index_prob=2, vol_zero=None, ticks=TICKS, 
     for g in range(draw(st.integers(*groups))):
         gname = f"A{g}"
         acc = draw(st.lists(st.sampled_from(all_markets), min_size=1, max_size=len(all_markets), unique=True))
-        cfg[gname] = {"class": "VScriptedAgent", "numAgents": draw(st.integers(*agents_per_group)), "markets": acc,
+        cfg[gname] = {"class": draw(st.sampled_from(["VScriptedAgent", "VScriptedAgent", "VScriptedAgentSub"])), "numAgents": draw(st.integers(*agents_per_group)), "markets": acc,
                       "assetVolume": draw(st.integers(0, 50)), "cashAmount": draw(st.sampled_from(list(cash))),
                       "scripts": draw(st.lists(prog, min_size=1, max_size=3))}
         if random_endowment and draw(st.booleans()):
@@ -148,7 +148,7 @@ def sim_cases(draw, n_markets=(1, 3), index_prob=2, vol_zero=None, ticks=TICKS, 
         cfg["simulation"]["agents"].append(gname)
     if hft and draw(st.integers(0, 2)) > 0:
         acc = draw(st.lists(st.sampled_from(all_markets), min_size=1, max_size=len(all_markets), unique=True))
-        cfg["H0"] = {"class": "VScriptedHFT", "numAgents": draw(st.integers(1, 3)), "markets": acc, "assetVolume": 10,
+        cfg["H0"] = {"class": draw(st.sampled_from(["VScriptedHFT", "VScriptedHFT", "VScriptedHFTLate"])), "numAgents": draw(st.integers(1, 3)), "markets": acc, "assetVolume": 10,
                      "cashAmount": 1000, "scripts": draw(st.lists(prog, min_size=1, max_size=2))}
         cfg["simulation"]["agents"].append("H0")
     if builtin:
